@@ -405,6 +405,107 @@ pub fn check_dim_key(case: &DimKeyCase) -> CaseResult {
     Ok(classes)
 }
 
+/// Wide split entries: up to 120 distinct per-metric dimension sets (= records) in one entry, a
+/// duplicate injected into any one of them.
+#[derive(Clone, Debug, Serialize, Deserialize)]
+pub struct WideCase {
+    pub ctor: Ctor,
+    pub n: u8,
+    /// (record index, kind): kind 0 = the record's metric written twice, 1 = a string property with
+    /// the name of that record's metric
+    pub dup: Option<(u8, u8)>,
+    /// distinct dimension KEYS per record (else one key with distinct values)
+    pub distinct_keys: bool,
+    pub second_namespace: bool,
+}
+
+pub fn check_wide(case: &WideCase) -> CaseResult {
+    let n = case.n.max(2) as usize;
+    let mut cfg = EmfCfg::simple(case.ctor);
+    if case.second_namespace {
+        cfg.extra_namespaces = vec!["NS2".into()];
+    }
+    let cfg = cfg.normalize();
+    let dims_of = |r: usize| -> Vec<(String, String)> {
+        if case.distinct_keys {
+            vec![(format!("K{r}"), "v".to_string())]
+        } else {
+            vec![("K".to_string(), format!("v{r}"))]
+        }
+    };
+    let metric = |name: String, dims: Vec<(String, String)>| Op::Value {
+        name,
+        val: Val::Metric {
+            obs: vec![Obs::U(1)],
+            unit: UnitG(0),
+            dims,
+            flags: FlagG::None,
+        },
+    };
+    let mut ops = vec![
+        Op::Config(CfgG::AllowSplit),
+        Op::Timestamp {
+            secs: 1,
+            nanos: 0,
+            before_epoch: false,
+        },
+    ];
+    for r in 0..n {
+        ops.push(metric(format!("m{r}"), dims_of(r)));
+    }
+    let mut classes: Classes = vec![];
+    if let Some((rec, kind)) = case.dup {
+        let r = rec as usize % n;
+        match kind % 2 {
+            0 => ops.push(metric(format!("m{r}"), dims_of(r))),
+            _ => ops.push(Op::Value {
+                name: format!("m{r}"),
+                val: Val::Str("s".into()),
+            }),
+        }
+        if r >= 64 {
+            classes.push("duplicate-in-record-64-or-later");
+        } else if r >= 32 {
+            classes.push("duplicate-in-record-32-to-63");
+        }
+    }
+    let entry = GenEntry {
+        ops,
+        sample_group: vec![],
+    };
+    let (dec, out) = run_fmt(&cfg, &entry, &Sampling::None)?;
+    match case.dup {
+        Some((rec, kind)) => {
+            vensure!(
+                matches!(dec, Decision::Validation(_)),
+                format!("defect-accepted:{}", if kind % 2 == 0 { "dup-metric" } else { "dup-metric-then-string" }),
+                "split entry with {n} dimension sets and a duplicate in record {}: not rejected by a validating formatter ({}): {dec:?}",
+                rec as usize % n,
+                ctor_class(case.ctor)
+            );
+            vensure!(out.is_empty(), "validation-error-wrote-bytes", "rejected entry wrote {} bytes", out.len());
+            classes.push("rejected");
+        }
+        None => {
+            vensure!(dec == Decision::Ok, "valid-entry-rejected", "valid split entry with {n} dimension sets rejected: {dec:?}");
+            let nrec = no_duplicate_members(&out, &entry)?;
+            vensure!(nrec == n, "emf-content:record-count", "{n} dimension sets, {nrec} records");
+            let (dec2, out2) = run_fmt(&cfg.unvalidated_twin(), &entry, &Sampling::None)?;
+            vensure!(
+                dec2 == Decision::Ok && lines_multiset(&out) == lines_multiset(&out2),
+                "validation-not-transparent",
+                "wide split entry: validated output differs from unvalidated output ({dec2:?})"
+            );
+            classes.push("accepted");
+        }
+    }
+    if n > 64 {
+        classes.push("more-than-64-records");
+    }
+    classes.push("nt");
+    Ok(classes)
+}
+
 pub fn run(ctx: &mut Ctx) {
     ctx.assume("'documented ways of enabling validations': Emf::all_validations in every profile; Emf::builder() and builder().skip_all_validations(false) only with debug assertions (the builder documents that it disables validations without them)");
     ctx.assume("line order of split records is unspecified: transparency is compared on the multiset of lines");
@@ -571,5 +672,31 @@ pub fn run(ctx: &mut Ctx) {
                 })
         },
         check_dim_key,
+    );
+    ctx.explore(
+        SubCfg::new(
+            "c08-wide-split-entries",
+            "split entries with 2-120 distinct per-metric dimension sets (distinct keys, or one key with distinct values; one or two namespaces), valid or with one duplicate (the record's metric written twice, or a string property named like it) in a generated record. Oracle: a duplicate in ANY record is rejected with no output; the valid entry is accepted, has one record per dimension set without duplicated members, and equals the unvalidated twin's output. Non-trivial = every case",
+            if q { 3_000 } else { 60_000 },
+        )
+        .threads(threads)
+        .mandatory(&["more-than-64-records", "duplicate-in-record-64-or-later", "duplicate-in-record-32-to-63", "accepted", "rejected"]),
+        || {
+            (
+                arb_validating_ctor(),
+                prop_oneof![2u8..40, 30u8..70, 60u8..=120],
+                prop::option::weighted(0.7, (any::<u8>(), 0u8..2)),
+                any::<bool>(),
+                any::<bool>(),
+            )
+                .prop_map(|(ctor, n, dup, distinct_keys, second_namespace)| WideCase {
+                    ctor,
+                    n,
+                    dup,
+                    distinct_keys,
+                    second_namespace,
+                })
+        },
+        check_wide,
     );
 }
